@@ -127,6 +127,14 @@ LAYERS = {
                                     C("sub", 0x2, 4, bitpos=4, bytepos=1), V("z", 4, bytepos=1)),
          "pos": [rq(C("sid", 0xF6), V("w"))]},
     ]},
+    # the leading constant is a 12-bit low-high (little endian) number: wire bytes 22 x1
+    "lowhigh-const": {"services": [
+        {"name": "A", "request": rq(dict(kind="const", name="sid", value=0x122,
+                                         type={"dt": "A_UINT32", "bl": 12, "hl": False}),
+                                    V("x", 4, bytepos=1, bitpos=4)),
+         "pos": [rq(C("sid", 0x62), V("y"))]},
+        {"name": "B", "request": rq(C("sid", 0x23), V("z"))},
+    ]},
     # the constant prefix of the request is longer than a whole (negative) response of the service
     "request-prefix-longer-than-response": {"services": [
         {"name": "A", "request": rq(C("sid", 0x31), C("sub", 0x01), C("hi", 0xFF), C("lo", 0x00), V("arg")),
@@ -172,6 +180,12 @@ def _bits(p):
             "nrcconst": lambda: 8}[k]()
 
 
+def _lowhigh(p):
+    """is the parameter a low-high (little endian) number? (IS-HIGHLOW-BYTE-ORDER false)"""
+    t = p.get("type") or p.get("dop") or {}
+    return t.get("hl") is False
+
+
 def _layout(params):
     """[(parameter, byte position, bit position, number of bytes)]: a parameter without explicit
     byte position starts at the byte after its predecessor"""
@@ -195,7 +209,9 @@ def prefix_of(params, request_prefix=b""):
             raw = int(p["value"]) << bp
             mask = ((1 << _bits(p)) - 1) << bp
             for i in range(n):
-                sh = 8 * (n - 1 - i)
+                # high-low: the most significant byte first; low-high: the bytes of the field in
+                # reverse order (the bit position applies to the least significant byte)
+                sh = 8 * i if _lowhigh(p) else 8 * (n - 1 - i)
                 ent = known.setdefault(pos + i, [0, 0])
                 ent[0] |= (raw >> sh) & 0xFF
                 ent[1] |= (mask >> sh) & 0xFF
@@ -229,7 +245,7 @@ def obj_matches(params, M, request_prefix):
     for p, pos, bp, n in _layout(params):
         k = p["kind"]
         v = 0
-        for i in range(n):
+        for i in (reversed(range(n)) if _lowhigh(p) else range(n)):
             v = (v << 8) | M[pos + i]
         if k == "matchreq":
             # decoded as a little-endian number by odxtools (no byte order is specified for it)
